@@ -1650,7 +1650,8 @@ def gen_tls_prog(rng, churn=False):
         fill = 16 * rng.choice((0, 0, 1, 3, 4, 15, 16, 17, 63)) + 15 - r
     for i in range(fill):
         ops.append((OP['KCREATE'], slot, rng.choice((0, 1, 2, 3)), 0)); slot += 1
-    dts = [rng.choice((0, 1, 2, 3)) for _ in range(nk)]
+    fresh_reads = (not churn) and rng.random() < 0.35
+    dts = [rng.choice((0, 0, 0, 1) if fresh_reads else (0, 1, 2, 3)) for _ in range(nk)]
     for i in range(nk):
         ops.append((OP['KCREATE'], i, dts[i], 0))
     if fill >= 1019 and rng.random() < 0.7:      # exhaustion: the table has 1024 keys
@@ -1665,8 +1666,22 @@ def gen_tls_prog(rng, churn=False):
     nt = rng.randint(1, 4)
     bodies = []
     cancelled = []
+    if fresh_reads:
+        # "a thread that never stored under a key reads NULL": threads run one after the other on recycled descriptors;
+        # the first stores under every key, each later one stores under a single key and then reads all of them
+        nt = rng.randint(2, 4)
     for t in range(1, nt + 1):
         b = []
+        if fresh_reads:
+            if t == 1:
+                b = [(OP['KSET'], k, 1000 * t + k + 1, 0) for k in range(nk)]
+            else:
+                k0 = rng.randrange(nk)
+                b = [(OP['KSET'], k0, 1000 * t + k0 + 1, 0)] + [(OP['KGET'], k, 0, 0) for k in range(nk)]
+                if rng.random() < 0.5:
+                    b.insert(1, (OP['YD'], rng.choice((0, 2, 3)), 0, 0))
+            bodies.append(b)
+            continue
         for _ in range(rng.randint(1, 10)):
             r = rng.random()
             k = rng.randrange(nk)
@@ -1693,7 +1708,7 @@ def gen_tls_prog(rng, churn=False):
             b.append((OP['TESTCANCEL'], 0, 0, 0)); cancelled.append(t)
         bodies.append(b)
     main = list(ops)
-    if not churn and rng.random() < 0.5:
+    if fresh_reads or (not churn and rng.random() < 0.5):
         # one thread after the other: descriptors (and the key-tree storage embedded in them) are recycled, so a later
         # thread works on memory that holds an earlier thread's values
         for t in range(1, nt + 1):
